@@ -117,6 +117,28 @@
     pub open spec fn rej_ntt_rel(s: spec_fn(int) -> u8, a: T) -> bool {
         exists|wit: Seq<int>| wit.len() == 256 && forall|j: int| 0 <= j < 256 ==> #[trigger] rej_ntt_at(s, a, j, wit[j])
     }
+    // ---- FIPS 204 Algorithm 31 (RejBoundedPoly) as a relation between the XOF stream and the sampled polynomial: sample k is half-byte k
+    // (low half of byte k/2 first); it is accepted iff CoeffFromHalfByte is defined; coefficient j is the j-th accepted sample.
+    pub open spec fn half_nib(s: spec_fn(int) -> u8, k: int) -> int { if k % 2 == 0 { (s(k / 2) as int) % 16 } else { (s(k / 2) as int) / 16 } }
+    pub open spec fn half_acc(eta: int, b: int) -> bool { (eta == 2 && b < 15) || (eta == 4 && b < 9) }
+    pub open spec fn half_val(eta: int, b: int) -> int { if eta == 2 { 2 - b % 5 } else { 4 - b } }
+    pub open spec fn rejh_cnt(s: spec_fn(int) -> u8, eta: int, k: int) -> int
+        decreases k
+    {
+        if k <= 0 { 0 } else { rejh_cnt(s, eta, k - 1) + (if half_acc(eta, half_nib(s, k - 1)) { 1int } else { 0int }) }
+    }
+    pub open spec fn rej_bnd_at(s: spec_fn(int) -> u8, eta: int, a: R, j: int, k: int) -> bool {
+        0 <= k && half_acc(eta, half_nib(s, k)) && rejh_cnt(s, eta, k) == j && a.0[j] == half_val(eta, half_nib(s, k))
+    }
+    pub open spec fn rej_bnd_rel(s: spec_fn(int) -> u8, eta: int, a: R) -> bool {
+        exists|wit: Seq<int>| wit.len() == 256 && forall|j: int| 0 <= j < 256 ==> #[trigger] rej_bnd_at(s, eta, a, j, wit[j])
+    }
+    // ---- FIPS 204 Algorithm 33 (ExpandS): s1[r] = RejBoundedPoly(rho' || IntegerToBytes(r, 2)), s2[r] = RejBoundedPoly(rho' || IntegerToBytes(r + l, 2))
+    pub open spec fn expand_s_seed(rho: Seq<u8>, r: int) -> Seq<u8> { rho + seq![r as u8] + seq![0u8] }
+    pub open spec fn expand_s_rel<const K: usize, const L: usize>(rho: Seq<u8>, eta: int, s1: [R; L], s2: [R; K]) -> bool {
+        &&& forall|r: int| 0 <= r < L ==> rej_bnd_rel(shake256(#[trigger] expand_s_seed(rho, r)), eta, s1[r])
+        &&& forall|r: int| 0 <= r < K ==> rej_bnd_rel(shake256(#[trigger] expand_s_seed(rho, r + L)), eta, s2[r])
+    }
     // ---- FIPS 204 Algorithm 34 (ExpandMask): polynomial number r of attempt kappa is BitUnpack(H(rho'' || IntegerToBytes(kappa + r, 2), 32c))
     pub open spec fn mask_seed(rho: Seq<u8>, n: int) -> Seq<u8> { rho + seq![(n % 256) as u8, (n / 256) as u8] }
     #[verifier::opaque]
